@@ -622,25 +622,30 @@ class SInt:
     return b >> k
 
   def __and__(self, o):
-    o = _norm_const(o)
+    o = _norm_const(_conc_bitlen(o))
     if isinstance(o, int) and o >= 0 and (o & (o + 1)) == 0:
       return self % (o + 1)
     if isinstance(o, int) and o > 0 and (o & (o - 1)) == 0:
       # single bit
       return ((self // o) % 2) * o
-    raise PathAbort('inconclusive: bitwise & on unbounded symbolic int')
+    return _bitop_uf('and', self, o)
 
   __rand__ = __and__
 
   def __or__(self, o):
-    raise PathAbort('inconclusive: bitwise | on unbounded symbolic int')
+    return _bitop_uf('or', self, _norm_const(_conc_bitlen(o)))
 
   __ror__ = __or__
 
   def __xor__(self, o):
-    raise PathAbort('inconclusive: bitwise ^ on unbounded symbolic int')
+    return _bitop_uf('xor', self, _norm_const(_conc_bitlen(o)))
 
   __rxor__ = __xor__
+
+  def to_bytes(self, length, byteorder='big', *, signed=False):
+    """int.to_bytes on a symbolic value: list of byte terms."""
+    from harness import symbytes  # pylint: disable=g-import-not-at-top
+    return symbytes.int_to_bytes(self, length, byteorder, signed)
 
   def __repr__(self):
     return 'SInt(%s)' % self.t
@@ -770,6 +775,38 @@ class SBitLen:
     return 'SBitLen(%r)' % (self.x,)
 
 
+BITOP_WIDTHS = (8, 16, 32, 48, 64, 128, 160, 256)
+_BITOPS = {}
+
+
+def _bitop_uf(name, a, b):
+  """Bitwise and/or/xor on unbounded ints: uninterpreted function with range
+  axioms instantiated per call (non-negativity, closure under 2^k bounds)."""
+  at, bt = _int_term(a), _int_term(b)
+  if at is None or bt is None:
+    return NotImplemented
+  f = _BITOPS.get(name)
+  if f is None:
+    f = z3.Function('bit' + name, z3.IntSort(), z3.IntSort(), z3.IntSort())
+    _BITOPS[name] = f
+  e = eng()
+  r = f(at, bt)
+  key = ('bitop', name, at.get_id(), bt.get_id())
+  if key not in e.memo:
+    e.memo[key] = (r, at, bt)
+    ax = [z3.Implies(z3.And(at >= 0, bt >= 0), r >= 0), f(at, bt) == f(bt, at)]
+    if name == 'and':
+      ax.append(z3.Implies(z3.And(at >= 0, bt >= 0),
+                           z3.And(r <= at, r <= bt)))
+    for k in BITOP_WIDTHS:
+      lim = 1 << k
+      ax.append(z3.Implies(z3.And(at >= 0, bt >= 0, at < lim, bt < lim),
+                           r < lim))
+    e.assume(z3.And(*ax))
+    e.notes.setdefault('bitops', set()).add(name)
+  return _wrap_int(r)
+
+
 def _conc_bitlen(o):
   if isinstance(o, SBitLen):
     return o.value()
@@ -793,6 +830,19 @@ def sdivmod(a, m):
     if m == 0:
       raise ZeroDivisionError('integer division or modulo by zero')
     if m > 0:
+      hv = eng().notes.get('havoc_mod') if CUR is not None else None
+      if hv and m >= hv and not z3.is_int_value(at) and not (
+          z3.is_const(at) and at.decl().kind() == z3.Z3_OP_UNINTERPRETED):
+        # range-only abstraction: a % m is SOME value in [0, m) (memoised)
+        e = eng()
+        key = ('havocmod', at.get_id(), m)
+        hit = e.memo.get(key)
+        if hit is None:
+          r = e.fresh('hmod')
+          e.assume(z3.And(r >= 0, r < m))
+          hit = (r, at)
+          e.memo[key] = hit
+        return _wrap_int(at / m), _wrap_int(hit[0])
       return _wrap_int(at / m), _wrap_int(at % m)
     # negative constant: a = q*m + r, m < r <= 0 ; q = floor(a/m)
     # floor(a/m) = floor((-a)/(-m))
